@@ -72,7 +72,7 @@ def _full_slice_text(fnode, expr, depth=8) -> str:
 
 @rule(
     "SIG-COMPLETE",
-    ["C13"],
+    ["C13", "C10", "C04"],
     "the string hashed by naming.compute_signature slices back to: each form's UFL signature / each "
     "expression's renumbered signature (renumbering built from coefficients, constants, arguments and "
     "domains) and its evaluation points, ffcx.__version__, the ufcx.h hash, the kind and the caller's "
@@ -81,6 +81,15 @@ def _full_slice_text(fnode, expr, depth=8) -> str:
     min_instances=14,
 )
 def sig_complete(repo, res):
+    """C13 for every finding; additionally C10 when an option escapes the module name (a later request with other option values
+    is served the cached module), C04 when the evaluation points do."""
+    _sig_complete(repo, res)
+    for f_ in res.findings:
+        extra = (("C10",) if "option" in f_.msg.lower() else ()) + (("C04",) if "points" in f_.msg.lower() or ":points" in f_.key else ())
+        f_.props = ("C13",) + extra
+
+
+def _sig_complete(repo, res):
     m = repo.mod(NAMING)
     cs = m.func("compute_signature")
     res.functions.add(cs.key)
@@ -249,7 +258,7 @@ INJECTIVE_ARRAY = ("tobytes", "tolist", "tostring", "dumps", "hexdigest", "diges
 
 @rule(
     "SIG-INJECTIVE",
-    ["C13"],
+    ["C13", "C04"],
     "no component of the hashed signature is rendered through a lossy conversion: repr/str/f-string of "
     "a NumPy array (8 significant digits, elision beyond 1000 elements) or a %g-style format",
     min_instances=1,
